@@ -637,3 +637,21 @@ Definition run_stubs (c : target * option str * list (str * fkind)) : pyval :=
   | Err e => PTuple [o_str "err"; o_errk e]
   | Unmodelled => o_str "unmodelled"
   end.
+
+(* histories: the schema is changed after the first generation (a field or method added / replaced, a
+   nested schema added) and the stub is generated again: the model is run on the schema as it is at each
+   generation *)
+Definition o_text (r : res (list str)) : pyval :=
+  match r with
+  | Ok l => PStr (join [10] l)
+  | Err e => PTuple [o_str "err"; o_errk e]
+  | Unmodelled => o_str "unmodelled"
+  end.
+
+Definition run_stubs_hist (c : target * option str * list (str * fkind) * list (list (str * fkind))) : pyval :=
+  let '(tgt, cn, fs, hist) := c in
+  match run_stubs (tgt, cn, fs) with
+  | PTuple [a; b; c; d; e] =>
+      PTuple [a; b; c; d; e; PList 0 (map (fun fs' => o_text (stub_lines tgt cn fs')) hist)]
+  | other => other
+  end.
